@@ -657,6 +657,14 @@ def curated_special():
         ('rule', 'start', None, ('seq', [('call', 'WB', [('bstr', b'ab')]), ('call', 'WP', [BT]), ('call', 'WP', [('alt', [('byte', 0x61), ('bstr', b'bb')])])])),
         ('rule', 'WB', ['p'], ('seq', [('ref', 'p'), ('py', "('val', p)")])),
         ('rule', 'WP', ['p'], ('seq', [('ref', 'p'), ('opt', ('ref', 'p'))]))]))
+    # a bytes string literal as argument is a bytes VALUE inside the template (and a parser)
+    out.append(('bytes-literal-value', [
+        ('rule', 'start', None, ('seq', [('call', 'WV', [('bstr', b'ab')]), ('opt', ('call', 'WV', [('kw', 'p', ('bstr', b'a'))]))])),
+        ('rule', 'WV', ['p'], ('seq', [('ref', 'p'), ('py', "('val', p, p + b'!', len(p))")]))]))
+    out.append(('bytes-literal-value-forwarded', [
+        ('rule', 'start', None, ('call', 'Fw', [('bstr', b'ab')])),
+        ('rule', 'Fw', ['q'], ('call', 'WV', [('ref', 'q')])),
+        ('rule', 'WV', ['p'], ('seq', [('opt', ('ref', 'p')), ('py', "('val', p, p[:1])")]))]))
     # known-finding mechanisms (kept minimal)
     out.append(('capture-python', [
         ('rule', 'start', None, ('let', 'q', T, ('call', 'W', [('where', T, ('py', 'lambda v: v == q'))]))),
